@@ -34,9 +34,10 @@ def cfg (j : Json) : R Cfg := do
          cyclic := ← bool (fldD j "cyclic" (Json.bool false)) }
 
 def digest (c : Cfg) (s : State) : Json :=
-  Json.mkObj [("env", jl (s.env.map jentry)), ("queue", jl (s.queue.map (jopt jnat))), ("unf", jnat s.unfinished),
-    ("cond", jopt jnat s.condOwner), ("exec", jnats s.execCount),
-    ("seen", jl (s.seen.map fun o => jopt (fun l => jl (l.map jentry)) o)), ("en", jnats (enabled c s)),
+  let ts := List.range c.n
+  Json.mkObj [("env", jl (ts.map fun t => jentry (s.env.entry t))), ("queue", jl (s.queue.map (jopt jnat))), ("unf", jnat s.unfinished),
+    ("cond", jopt jnat s.condOwner), ("exec", jnats (ts.map s.execCount)),
+    ("seen", jl (ts.map fun t => jopt (fun l => jl (l.map jentry)) (s.seen t))), ("en", jnats (enabled c s)),
     ("terminal", jbool (terminal c s))]
 
 /-- replay a recorded schedule: `steps` = [[tid, kind], ...]; answers the digest before every step and after the last -/
@@ -47,7 +48,7 @@ def run (j : Json) : R Json := do
   let unf0 ← nat (fldD j "unfinished" (jnat 0))
   let steps ← listOf (fun x => do let l ← arr x; pure (← nat (← nth l 0), ← str (← nth l 1))) (← fld j "steps")
   let clk ← nat (fldD j "clock" (jnat 0))
-  let mut s := init c env0 q0 unf0 clk
+  let mut s := init c ⟨fun t => env0.getD t none⟩ q0 unf0 clk
   let mut outs : Array Json := #[digest c s]
   let mut rejected : Option Nat := none
   let mut i := 0
@@ -65,9 +66,9 @@ def runDecide (j : Json) : R Json := do
   let left ← listOf nat (← fld j "left")
   let t ← nat (← fld j "task")
   let pinned := (fldD j "pinned" (Json.bool false)) == Json.bool true
-  let env0 := env0 ++ List.replicate (c.n - env0.length) none
-  let (d, e) := if pinned then decidePinned c env0 t else decide c env0 left t
+  let envf : Env := ⟨fun t => env0.getD t none⟩
+  let (d, e) := if pinned then decidePinned c envf t else decide c envf left t
   let ds := match d with | .wait => "wait" | .skip => "skip" | .pending => "pending" | .drop => "drop"
-  pure (Json.mkObj [("decision", Json.str ds), ("env", jl (e.map jentry))])
+  pure (Json.mkObj [("decision", Json.str ds), ("env", jl ((List.range c.n).map fun t => jentry (e.entry t)))])
 
 end Drv.Sched
